@@ -212,6 +212,35 @@ Theorem c10_sarif_position_without_column_refuted :
 Proof. exact sarif_position_refuted. Qed.
 Print Assumptions c10_sarif_position_without_column_refuted.
 
+(* Internal consistency of the sarif document (seed round 3): a result names its rule twice, by id
+   (ruleId = [sr_rule]) and by position in tool.driver.rules (ruleIndex = [sr_index]); consumers look
+   the rule's description / help URI / category up through ruleIndex.  In the model's document every
+   result HAS a ruleIndex, it is inside the rules list, and the rule found there has the result's
+   ruleId: "every violation ... with its rule", whichever of the two references is read. *)
+Theorem c10_sarif_rule_index_consistent :
+  forall r x, In x (sd_results (sarif r)) ->
+  exists i ru, sr_index x = Some (N.of_nat i) /\ nth_error (sd_rules (sarif r)) i = Some ru /\
+               sru_id ru = sr_rule x.
+Proof. exact sarif_rule_index_proof. Qed.
+Print Assumptions c10_sarif_rule_index_consistent.
+
+(* the same, together with "the file of every result is in the artifacts list", as the boolean that the
+   correspondence evaluates on every OBSERVED document (Check.C10Check.spec_failures, code 17) *)
+Theorem c10_sarif_refs_consistent :
+  forall r, sarif_refs_consistent (sarif r) = true.
+Proof. exact sarif_refs_consistent_proof. Qed.
+Print Assumptions c10_sarif_refs_consistent.
+
+(* regression for the class "rules re-ordered after the results were created": the keys read through
+   ruleId are still exactly those of the report, the cross-reference is broken (so a predicate that
+   reads ruleId alone cannot see it; the consistency predicate does) *)
+Theorem c10_sarif_reordered_rules_refuted :
+  exists r, positions_well_formed r /\
+            sarif_keys (sarif_rules_reordered (sarif r)) = report_keys r /\
+            sarif_refs_consistent (sarif_rules_reordered (sarif r)) = false.
+Proof. exact sarif_reordered_rules_refuted_proof. Qed.
+Print Assumptions c10_sarif_reordered_rules_refuted.
+
 (* ---------------------------------------------------------------- junit *)
 
 (* one suite per file: the test cases of all suites are the violations of the report, each once *)
